@@ -568,7 +568,7 @@ func genStoreCase(rt *rapid.T, prop string) StoreCase {
 			o.Name = rapid.SampledFrom(allStoreNames).Draw(rt, "name")
 		}
 		return o
-	}), 1, 30).Draw(rt, "ops")
+	}), h.LenBias(rt, 1, 30), 30).Draw(rt, "ops")
 	return c
 }
 
